@@ -1,9 +1,10 @@
 (* Segmentation lemma for the coroutine parser (lomond/parser.py): pulling from a ++ b equals pulling from a and,
    when a is exhausted, continuing with b.  Generic in the grammar. *)
-From Coq Require Import List NArith Arith Lia Bool.
+From Coq Require Import List NArith Arith Lia Bool ZifyN ZifyNat.
 From Coq.Strings Require Import Byte.
 From Model Require Import Bytes Parser.
 Import ListNotations.
+Local Open Scope nat_scope.
 
 Section ParserFacts.
   Variable G item err : Type.
@@ -114,13 +115,13 @@ Section ParserFacts.
     pull_body k1 s d = pull_body k2 s d.
   Proof.
     intros Hs H. unfold Parser.pull_body. destruct d as [|b d]; auto.
-    unfold st_ok in Hs. destruct (paw s) as [u|max] eqn:Ea.
+    unfold st_ok in Hs. destruct (paw s) as [u|max] eqn:Ea; cbn beta iota in Hs.
     - destruct (if u then _ else _) as [g'|]; auto.
       destruct (_ =? 0)%N; auto.
       pose proof (resume_ok g' (pbuf s ++ take (prem s) (b :: d))) as R.
       destruct (resume g' _) as [x g2 a n|g2 a n|e]; simpl; auto.
       apply H; [apply mk_ok; auto|]. rewrite drop_skipn, skipn_length.
-      assert (0 < N.to_nat (prem s)) by lia. simpl in *; lia.
+      assert (0 < N.to_nat (prem s)) by lia. cbn [length] in *; lia.
     - destruct (find_sep (pbuf s ++ b :: d)) as [i|] eqn:F; auto.
       destruct (too_long _ _); auto.
       pose proof (resume_ok (pg s) (firstn (i + length sep) (pbuf s ++ b :: d))) as R.
@@ -169,7 +170,7 @@ Section ParserFacts.
     assert (LA : 0 < length A) by (subst A; simpl; lia).
     assert (LAn : length A <= S n) by (subst A; exact La).
     unfold st_ok in Hs.
-    destruct (paw s) as [u|max] eqn:Ea.
+    destruct (paw s) as [u|max] eqn:Ea; cbn beta iota in Hs.
     - rewrite !take_firstn, !drop_skipn.
       set (P := N.to_nat (prem s)) in *.
       assert (HP : 0 < P) by (unfold P; lia).
@@ -199,7 +200,7 @@ Section ParserFacts.
         { destruct u; [apply validate_app|reflexivity]. }
         rewrite Hv. clear Hv.
         destruct (if u then validate (pg s) A else Some (pg s)) as [g1|]; [|reflexivity].
-        unfold blen at 2. rewrite (Hsub (length A)) by lia.
+        unfold blen. rewrite (Hsub (length A)) by lia.
         replace (P - length A =? 0) with false by (symmetry; apply Nat.eqb_neq; lia).
         simpl out_app.
         destruct b as [|b0 b'].
@@ -260,12 +261,12 @@ Section ParserFacts.
     end.
   Proof.
     remember (length d) as n eqn:En. revert s d En.
-    induction n as [n IH] using lt_wf_ind. intros s d En Hs.
+    induction n as [n IH] using lt_wf_ind. intros s d En Hs. subst n.
     rewrite pullf_unfold by exact Hs. unfold Parser.pull_body.
     destruct d as [|b0 d0]; [exact Hs|].
     remember (b0 :: d0) as d eqn:Ed.
     assert (Ld : 0 < length d) by (subst d; simpl; lia).
-    unfold st_ok in Hs. destruct (paw s) as [u|max] eqn:Ea.
+    unfold st_ok in Hs. destruct (paw s) as [u|max] eqn:Ea; cbn beta iota in Hs.
     - destruct (if u then _ else _) as [g'|]; [|exact I].
       destruct (_ =? 0)%N eqn:Ez.
       + pose proof (resume_ok g' (pbuf s ++ take (prem s) d)) as R.
@@ -275,15 +276,15 @@ Section ParserFacts.
         * split; [apply mk_ok; auto|exact Lr].
         * specialize (IH (length (drop (prem s) d)) ltac:(lia) (mk g2 a m) (drop (prem s) d) eq_refl (mk_ok _ _ _ R)).
           unfold mk in IH. destruct (pullf _ _); auto. destruct IH; split; auto; lia.
-      + unfold st_ok. cbn [paw prem]. rewrite Ea. apply N.eqb_neq in Ez. lia.
+      + unfold st_ok. cbn [paw prem]. apply N.eqb_neq in Ez. lia.
     - destruct (find_sep (pbuf s ++ d)) as [i|] eqn:F.
       + destruct (too_long _ _); [exact I|].
         pose proof (resume_ok (pg s) (firstn (i + length sep) (pbuf s ++ d))) as R.
         pose proof (until_shrinks _ _ _ Hs F) as Lr.
         destruct (resume (pg s) _) as [x g2 a m|g2 a m|e]; simpl; auto.
         * split; [apply mk_ok; auto|exact Lr].
-        * specialize (IH _ ltac:(lia) (mk g2 a m) _ eq_refl (mk_ok _ _ _ R)).
+        * specialize (IH (length (skipn (i + length sep) (pbuf s ++ d))) ltac:(lia) (mk g2 a m) _ eq_refl (mk_ok _ _ _ R)).
           unfold mk in IH. destruct (pullf _ _); auto. destruct IH; split; auto; lia.
-      + destruct (too_long _ _); [exact I|]. unfold st_ok. cbn [paw pbuf]. rewrite Ea. exact F.
+      + destruct (too_long _ _); [exact I|]. unfold st_ok. cbn [paw pbuf]. exact F.
   Qed.
 End ParserFacts.
